@@ -159,6 +159,22 @@ exists (map f B); split=> //; first by rewrite size_map.
 by move=> j jB; rewrite (nth_map [::]).
 Qed.
 
+(* a solve through a factor operator takes the factor route under every settings record (CholLinearOperator has its own
+   solve: max_cholesky_size, fast_computations, the CG settings are never consulted) *)
+Lemma cholof_route (s : settings) up (o : opd F) : select_solve s (cls_of (DCholOf up o)) = MCholFactor.
+Proof. by []. Qed.
+
+(* the orientation flag is observable: solving with an upper factor R as if it were a lower one (what a structured
+   factor that forgets to hand `upper` down does) gives a different answer *)
+Lemma factor_flag_observable :
+  let R : mat F := [:: [:: 1; 1]; [:: 0; 1]] in let b : vec F := [:: 1; 0] in
+  chol_solve RA true 2 R b <> chol_solve RA false 2 R b.
+Proof.
+rewrite /chol_solve /tri_solve /= /vrev /flip /trm /vtab /mtab /= /Model.vget /Model.get /= /mkseq /=.
+rewrite !(subr0, divr1, mulr1, mul1r, add0r, mulr0, mul0r, addr0, sub0r).
+by move=> -[_ /eqP]; rewrite eqr_opp oner_eq0.
+Qed.
+
 (* the route does not matter: solving directly under ANY settings and solving through the factor operator of EITHER
    orientation under ANY other settings give the same columns (invertible matrix: the solution is unique) *)
 Theorem route_independent_leaf (s1 s2 : settings) up (o : opd F) (B X1 X2 : cols F) :
